@@ -689,8 +689,16 @@ func CheckWrite(cs Case) (fs []Finding, outcome uint64) {
 	if notes.TNB != len(wc) || notes.TNS != len(wc) {
 		add("stl.write.totals", "%d cues written; GSI says TNB=%d TNS=%d", len(wc), notes.TNB, notes.TNS)
 	}
-	if notes.TCF != rd.Blocks[0].In {
-		add("stl.write.tcf", "GSI timecode of the first in-cue is written %v, the first TTI block starts at %v", notes.TCF, rd.Blocks[0].In)
+	// "first in-cue": the first listed subtitle's, or - for a list that is not in start order - the earliest one's
+	// (the sentence does not choose; a writer doing either is right)
+	earliest := rd.Blocks[0].In
+	for _, b := range rd.Blocks {
+		if b.In.Frames(100) < earliest.Frames(100) {
+			earliest = b.In
+		}
+	}
+	if notes.TCF != rd.Blocks[0].In && notes.TCF != earliest {
+		add("stl.write.tcf", "GSI timecode of the first in-cue is written %v, the first TTI block starts at %v (the earliest at %v)", notes.TCF, rd.Blocks[0].In, earliest)
 	}
 	fpsOut := rd.GSI.FPS
 	// metadata
